@@ -11,6 +11,7 @@ type DataSpec struct {
 	Seed   int64  `json:"seed"`
 	Len    int    `json:"len"`
 	Period int    `json:"period"`
+	Pre    string `json:"pre,omitempty"` // writer cases: class of the data of the first epoch (before the first Reset), if different
 }
 
 var dataClasses = []string{"text", "uniform", "nearuniform", "fib", "alpha3", "runs", "period", "tokendense", "mixed", "zeros", "sparse", "dom50", "alpha4", "pruns", "copies", "onerepeat", "digits", "deepclust", "deepdist"}
